@@ -47,7 +47,34 @@ fn bytes_strategy() -> BoxedStrategy<Vec<u8>> {
 }
 
 pub fn raw_strategy() -> BoxedStrategy<FaultCase> {
-    (ty_strategy_ext(3, true), bytes_strategy()).prop_map(|(ty, bytes)| FaultCase::Raw { ty, bytes }).boxed()
+    prop_oneof![8 => (ty_strategy_ext(3, true), bytes_strategy()).prop_map(|(ty, bytes)| FaultCase::Raw { ty, bytes }), 1 => bad_utf8_strategy()].boxed()
+}
+
+/// strings that are not UTF-8, with a well-formed run of 0-80 bytes before the damage and multi-byte characters at
+/// every offset of that run: what an error path that quotes or measures the readable part has to cope with
+fn bad_utf8_strategy() -> BoxedStrategy<FaultCase> {
+    let a = |t: Ty| Arc::new(t);
+    let tys = vec![Ty::Str, Ty::Dedup, Ty::Option(a(Ty::Str)), Ty::Vec(a(Ty::Str)), Ty::Tuple(vec![Ty::U8, Ty::Str]), Ty::Tz, Ty::BigDecimal];
+    (prop::sample::select(tys), 0usize..80, prop::sample::select(vec!["\u{e9}", "\u{20ac}", "\u{1f600}", "z"]), prop::sample::select(vec![vec![0xFFu8], vec![0xC3], vec![0x80], vec![0xE2, 0x82], vec![0xF0, 0x9F, 0x98], vec![0xED, 0xA0, 0x80]]), 0usize..6, 0usize..3)
+        .prop_map(|(ty, ascii, wide, bad, tail, wides)| {
+            let mut body: Vec<u8> = vec![b'a'; ascii];
+            for _ in 0..=wides {
+                body.extend_from_slice(wide.as_bytes());
+            }
+            body.extend_from_slice(&bad);
+            body.extend(std::iter::repeat(b'b').take(tail));
+            let mut bytes = Vec::new();
+            match &ty {
+                Ty::Option(_) => bytes.push(1),
+                Ty::Vec(_) => vmodel::refcodec::var_i32(1, &mut bytes),
+                Ty::Tuple(_) => bytes.extend_from_slice(&[0, 7]),
+                _ => {}
+            }
+            vmodel::refcodec::var_i32(body.len() as i32, &mut bytes);
+            bytes.extend_from_slice(&body);
+            FaultCase::Raw { ty, bytes }
+        })
+        .boxed()
 }
 
 pub fn tampered_strategy() -> BoxedStrategy<FaultCase> {
